@@ -13,6 +13,7 @@
 # limitations under the License.
 """Symbolic list."""
 
+import copy
 import dataclasses
 import numbers
 import typing
@@ -271,6 +272,10 @@ class List(list, base.Symbolic, pg_typing.CustomTyping):
           allow_partial=base.accepts_partial(self),
           child_transform=base.symbolic_transform_fn(self._allow_partial),
           root_path=self.sym_path)
+      if self._value_spec is None:
+        # NOTE: `custom_apply` does not bind a spec that has a user transform
+        # (its transform-free twin validates the transformed value).
+        self._value_spec = value_spec
     else:
       self._value_spec = value_spec
     return self
@@ -524,6 +529,12 @@ class List(list, base.Symbolic, pg_typing.CustomTyping):
       except BaseException:
         base.restore_typing_state(before)
         raise
+      element = self._value_spec.element.value
+      if (element.frozen and isinstance(value, base.Symbolic)
+          and value is element.default):
+        # NOTE: a frozen element spec hands out its default object itself; a
+        # dict / list is stored as a copy (see Dict._formalized_value).
+        value = copy.deepcopy(value)
     return self._relocate_if_symbolic(idx, value)
 
   @property
@@ -922,6 +933,7 @@ class List(list, base.Symbolic, pg_typing.CustomTyping):
               utils.message_on_path(
                   f'List {self!r} is not fully bound.', path))
         self._allow_partial = allow_partial
+        base.set_allow_partial_below(self, allow_partial)
     elif isinstance(value_spec, pg_typing.List):
       # NOTE: a field with a user transform applies its transform-free twin to
       # the transformed value (`skip_user_transform`); binding the spec in this
